@@ -179,7 +179,7 @@ def _evaluate_after_decoy(args):
 
 def evaluate(wl, cfg, dec, ctx):
     kind = wl.get("kind")
-    if cfg.get("decoy") and ctx.extra.get("decoys", 0) < 3 and kind in ("fit", "zhit", "kk_cnls", "bht"):
+    if cfg.get("decoy") and ctx.extra.get("decoys", 0) < 2 and kind in ("fit", "zhit", "kk_cnls", "bht"):
         # history fault: own forked process (nothing it leaves behind reaches later runs) and an empty task
         # cache (results cached by earlier clean runs must not hide its effect); the reference is computed
         # first, in the clean job process
